@@ -19,16 +19,71 @@ theorem defaultCfgs_nodup (rows) : (names (defaultCfgs rows)).Nodup :=
 theorem defaultVals_nodup (rows) : (names (defaultVals rows)).Nodup :=
   foldl_set_nodup _ [] (by simp)
 
-/-- what the merged dict contains, for override lists without repeated keys (a dict) -/
-theorem applyOverrides_spec {ov : Overrides} {d : Dict} (hd : (names d).Nodup)
+theorem get?_set_ne (d : Dict) (c : Cfg) (n : String) (h : c.name ≠ n) : (d.set c).get? n = d.get? n := by
+  induction d with
+  | nil =>
+    simp only [Dict.set, Dict.get?, List.find?_cons, List.find?_nil]
+    have : (c.name == n) = false := by simpa using h
+    simp [this]
+  | cons x xs ih =>
+    simp only [Dict.set]
+    split
+    · rename_i hx
+      simp only [Dict.get?, List.find?_cons]
+      have h1 : (c.name == n) = false := by simpa using h
+      have h2 : (x.name == n) = false := by rw [hx]; exact h1
+      simp [h1, h2]
+    · simp only [Dict.get?, List.find?_cons] at ih ⊢
+      rw [ih]
+
+theorem get?_pop_ne {d d' : Dict} {k : String} (n : String) (h : k ≠ n) (hp : d.pop k = some d') :
+    d'.get? n = d.get? n := by
+  induction d generalizing d' with
+  | nil => simp [Dict.pop] at hp
+  | cons x xs ih =>
+    simp only [Dict.pop] at hp
+    split at hp
+    · rename_i hx
+      cases hp
+      have : (x.name == n) = false := by rw [hx]; simpa using h
+      simp [Dict.get?, List.find?_cons, this]
+    · cases hq : Dict.pop xs k with
+      | none => simp [hq] at hp
+      | some q =>
+        simp only [hq, Option.map_some, Option.some.injEq] at hp
+        subst hp
+        have := ih hq
+        simp only [Dict.get?, List.find?_cons] at this ⊢
+        rw [this]
+
+theorem minOf_set_ne (d : Dict) (c : Cfg) (n : String) (h : c.name ≠ n) : minOf (d.set c) n = minOf d n := by
+  simp [minOf, get?_set_ne d c n h]
+
+theorem minOf_popD_ne (d : Dict) (k n : String) (h : k ≠ n) : minOf (d.popD k) n = minOf d n := by
+  unfold Dict.popD
+  cases hp : d.pop k with
+  | none => rfl
+  | some d' => simp [minOf, get?_pop_ne n h hp]
+
+theorem minOf_of_mem {d : Dict} (hd : (names d).Nodup) {c : Cfg} (hc : c ∈ d) : minOf d c.name = c.minimum := by
+  simp [minOf, (get?_eq_some hd c.name c).mpr ⟨hc, rfl⟩]
+
+/-- what the merged dict contains, for item lists without repeated keys (a dict): every item with a value, with
+the grow-only flag only for schema-filled items whose default was grow-only, plus the defaults that were neither
+replaced nor disabled -/
+theorem applyOverrides_spec (sup : String → Bool) {ov : Overrides} {d : Dict} (hd : (names d).Nodup)
     (hov : (ovNames ov).Nodup) :
-    (names (applyOverrides d ov)).Nodup ∧ ∀ x, x ∈ applyOverrides d ov ↔
-      (∃ id v, (x.name, id, some v) ∈ ov ∧ x = ⟨x.name, id, v, false⟩) ∨ (x ∈ d ∧ x.name ∉ ovNames ov) := by
+    (names (applyOverrides sup d ov)).Nodup ∧ ∀ x, x ∈ applyOverrides sup d ov ↔
+      (∃ id v, (x.name, id, some v) ∈ ov ∧ x = ⟨x.name, id, v, !sup x.name && minOf d x.name⟩) ∨
+        (x ∈ d ∧ x.name ∉ ovNames ov) := by
   induction ov generalizing d with
   | nil => exact ⟨hd, by simp [ovNames, applyOverrides]⟩
   | cons o rest ih =>
     obtain ⟨name, id, val⟩ := o
     simp only [ovNames, List.map_cons, List.nodup_cons] at hov
+    have hne : ∀ x : Cfg, ∀ i w, (x.name, i, w) ∈ rest → name ≠ x.name := by
+      intro x i w hm e
+      exact hov.1 (e ▸ List.mem_map_of_mem (f := (·.1)) hm)
     cases val with
     | none =>
       simp only [applyOverrides]
@@ -38,21 +93,24 @@ theorem applyOverrides_spec {ov : Overrides} {d : Dict} (hd : (names d).Nodup)
       simp only [ovNames, List.map_cons, List.mem_cons, not_or]
       constructor
       · rintro (⟨i, v, hm, he⟩ | ⟨⟨h1, h2⟩, h3⟩)
-        · exact Or.inl ⟨i, v, Or.inr hm, he⟩
+        · rw [minOf_popD_ne d name x.name (hne x i _ hm)] at he
+          exact Or.inl ⟨i, v, Or.inr hm, he⟩
         · exact Or.inr ⟨h1, h2, h3⟩
       · rintro (⟨i, v, hm | hm, he⟩ | ⟨h1, h2, h3⟩)
         · simp at hm
-        · exact Or.inl ⟨i, v, hm, he⟩
+        · rw [← minOf_popD_ne d name x.name (hne x i _ hm)] at he
+          exact Or.inl ⟨i, v, hm, he⟩
         · exact Or.inr ⟨⟨h1, h2⟩, h3⟩
     | some v =>
       simp only [applyOverrides]
-      obtain ⟨hn, hx⟩ := ih (set_nodup hd ⟨name, id, v, false⟩) hov.2
+      obtain ⟨hn, hx⟩ := ih (set_nodup hd ⟨name, id, v, !sup name && minOf d name⟩) hov.2
       refine ⟨hn, fun x => ?_⟩
       rw [hx x, mem_set hd]
       simp only [ovNames, List.map_cons, List.mem_cons, not_or]
       constructor
       · rintro (⟨i, w, hm, he⟩ | ⟨h1 | ⟨h1, h2⟩, h3⟩)
-        · exact Or.inl ⟨i, w, Or.inr hm, he⟩
+        · rw [minOf_set_ne d _ x.name (hne x i _ hm)] at he
+          exact Or.inl ⟨i, w, Or.inr hm, he⟩
         · subst h1; exact Or.inl ⟨id, v, Or.inl rfl, rfl⟩
         · exact Or.inr ⟨h1, h2, h3⟩
       · rintro (⟨i, w, hm | hm, he⟩ | ⟨h1, h2, h3⟩)
@@ -61,7 +119,8 @@ theorem applyOverrides_spec {ov : Overrides} {d : Dict} (hd : (names d).Nodup)
           refine Or.inr ⟨Or.inl ?_, ?_⟩
           · rw [he]; simp [e1, e2, e3]
           · rw [e1]; exact hov.1
-        · exact Or.inl ⟨i, w, hm, he⟩
+        · rw [← minOf_set_ne d ⟨name, id, v, !sup name && minOf d name⟩ x.name (hne x i _ hm)] at he
+          exact Or.inl ⟨i, w, hm, he⟩
         · exact Or.inr ⟨Or.inr ⟨h1, h2⟩, h3⟩
 
 /-! ### the write loop -/
